@@ -37,10 +37,16 @@ def gen_cases(tier, seed):
                     cases.append({"t": "eof", "N": N, "ivl": ivl, "size": size, "recover": [j, order, "phase1"]})
                     cases.append({"t": "eof", "N": N, "ivl": ivl, "size": size, "recover": [j, order, "phase2"]})
             cases.append({"t": "fin", "N": N, "ivl": ivl, "size": size, "recover": None})
+            for t in ("eof", "fin"):
+                cases.append({"t": t, "N": N, "ivl": ivl, "size": size, "recover": None, "other_entity": True})
+                cases.append({"t": t, "N": N, "ivl": ivl, "size": size, "recover": None, "prev_ivl": ivl * 5})
+                cases.append({"t": t, "N": N, "ivl": ivl, "size": size, "recover": None, "prev_ivl": ivl / 5})
             for j in range(1, N):
                 for order in ("before_idle", "after_idle"):
                     cases.append({"t": "fin", "N": N, "ivl": ivl, "size": size, "recover": [j, order, "phase1"]})
                     cases.append({"t": "fin", "N": N, "ivl": ivl, "size": size, "recover": [j, order, "phase2"]})
+        for nfd, cks in itertools.product((0, 1, 3), ("crc32", "modular")):
+            cases.append({"t": "cancel_mid", "N": N, "ivl": ivl, "nfd": nfd, "cks": cks})
         for imm, md_missing in itertools.product((True, False), (False, True)):
             for Na in (1, 2, 3):
                 cases.append({"t": "nak", "N": N, "Na": Na, "ivl": ivl, "imm": imm, "md_missing": md_missing, "progress": None})
@@ -160,8 +166,27 @@ def run_positive_ack(case, side):
     N, ivl_ms = case["N"], int(case["ivl"] * 1000)
     cfg = {"mode": "ack", "size": case["size"], "seg": 4, "ack_limit": N, "ack_ivl": case["ivl"], "nak_ivl": 77.0, "fs": "mem"}
     obs = {}
+    if case.get("other_entity"):
+        # another entity of the same process configures its own fault handler table (to ignore the limit faults); this entity keeps the defaults
+        with World({"fh_src": {"POSITIVE_ACK_LIMIT_REACHED": "ignore", "NAK_LIMIT_REACHED": "ignore"},
+                    "fh_dst": {"POSITIVE_ACK_LIMIT_REACHED": "ignore", "NAK_LIMIT_REACHED": "ignore"}, "fs": "mem"}):
+            pass
+        obs["scenarios_next_to_other_entity_with_own_fault_table"] = 1
+    prev_ivl = case.get("prev_ivl")
+    if prev_ivl is not None:
+        cfg["ack_ivl"] = prev_ivl
     with World(cfg) as w:
         ep = w.S if side == "S" else w.D
+        if prev_ivl is not None:
+            # an earlier transaction on the same handler ran (and was acknowledged) with another timer interval; then the user re-tuned the MIB
+            done = prep.src_to(w, "IDLE_AFTER_TRANSACTION") if side == "S" else prep.dst_to(w, "IDLE_AFTER_TRANSACTION")
+            if not done:
+                return [{"clause": "harness-could-not-complete-first-transaction", "step": ep.h.step.name}], obs, None
+            for rc in (w.rc_dst_at_src, w.rc_src_at_dst):
+                rc.positive_ack_timer_interval_seconds = case["ivl"]
+            w.cfg["seq_start"] = w.cfg["seq_start"] + (1 if side == "S" else 1)
+            ep.outbox.clear()
+            obs["scenarios_on_reused_handler_with_retuned_interval"] = 1
         ok = prep.src_to(w, "WAITING_FOR_EOF_ACK") if side == "S" else prep.dst_to(w, "WAITING_FOR_FINISHED_ACK")
         if not ok:
             return [{"clause": "harness-could-not-prepare-step", "step": ep.h.step.name}], obs, None
@@ -221,6 +246,50 @@ def run_positive_ack(case, side):
                     obs["abandons_checked"] = obs.get("abandons_checked", 0) + 1
                     if ep.h.state.name != "IDLE":
                         p.viol.append({"clause": "not-idle-after-abandon", "step": ep.h.step.name})
+        p.quiet_for(ivl_ms, 3, "after-abandon", idle_step="IDLE")
+        obs["expiries"] = p.expiries
+        return p.viol, obs, trace_summary(w, None, 40)
+
+
+def run_cancel_mid(case):
+    """The sender is cancelled in the middle of the file; the EOF (cancel) is never acknowledged: it is re-sent unchanged N-1 times, then the
+    transaction is abandoned (a fault during the transfer of the EOF (cancel))."""
+    N, ivl_ms = case["N"], int(case["ivl"] * 1000)
+    cfg = {"mode": "ack", "size": 20, "seg": 4, "ack_limit": N, "ack_ivl": case["ivl"], "fs": "mem", "cks": case["cks"]}
+    obs = {}
+    with World(cfg) as w:
+        S = w.S
+        w.put()
+        for _ in range(2 + case["nfd"]):
+            S.sm()
+        S.outbox.clear()
+        sent = max([e["d"]["offset"] + e["d"]["dlen"] for e in w.log.of("tx", "S") if e["d"].get("kind") == "FD"] or [0])
+        p = Probe(w, S)
+        try:
+            ok = S.cancel(S.h.transaction_id)
+        except Exception as e:  # noqa: BLE001
+            return [{"clause": "cancel-request-raised", "etype": type(e).__name__}], obs, None
+        S.outbox.clear()
+        first = last_tx(w, "S", "EOF")
+        if not ok or first is None or first["d"].get("cond") != "CANCEL_REQUEST_RECEIVED":
+            return [{"clause": "harness-could-not-cancel-mid-file", "ok": ok}], obs, None
+        want_ck = models.checksum(case["cks"], w.data[:sent]).hex()
+        if first["d"]["size"] != sent or first["d"]["cksum"] != want_ck:
+            p.viol.append({"clause": "eof-cancel-size-or-checksum", "eof": wire.short(first["d"]), "cksum": first["d"]["cksum"], "want": want_ck, "sent": sent})
+        p.since()
+        t_reset = vclock.now_ms()
+        for e in range(1, N + 1):
+            got = p.expiry(t_reset, ivl_ms, f"eof-cancel:expiry-{e}")
+            t_reset = vclock.now_ms()
+            if e < N:
+                p.check(got, f"eof-cancel:expiry-{e}-of-{N}:re-send-unchanged", tx_raw=[first["raw"]], fh=[], fins=[])
+                obs["resends_checked"] = obs.get("resends_checked", 0) + 1
+                obs["eof_cancel_mid_file_resends_checked"] = obs.get("eof_cancel_mid_file_resends_checked", 0) + 1
+            else:
+                p.check(got, f"eof-cancel:expiry-{N}:abandon", tx_raw=[], fh=[("abandon", "CANCEL_REQUEST_RECEIVED")], fins=[])
+                obs["abandons_checked"] = obs.get("abandons_checked", 0) + 1
+                if S.h.state.name != "IDLE":
+                    p.viol.append({"clause": "not-idle-after-abandon", "step": S.h.step.name})
         p.quiet_for(ivl_ms, 3, "after-abandon", idle_step="IDLE")
         obs["expiries"] = p.expiries
         return p.viol, obs, trace_summary(w, None, 40)
@@ -394,6 +463,9 @@ def run_case(case):
     elif case["t"] == "nak":
         viol, obs, sample = run_nak(case)
         obs["nak_scenarios"] = 1
+    elif case["t"] == "cancel_mid":
+        viol, obs, sample = run_cancel_mid(case)
+        obs["cancel_mid_scenarios"] = 1
     else:
         viol, obs, sample = run_cut(case)
     for v in viol:
@@ -407,4 +479,4 @@ def exhaustive(tier):
 
 
 REQUIRED = {"eof_scenarios": 20, "fin_scenarios": 20, "nak_scenarios": 20, "limit_faults_checked": 50, "abandons_checked": 50,
-            "resends_checked": 50, "progress_resets_checked": 4, "nak_sequence_fills_last_pdu_exactly": 10, "nak_sequence_pdus_1": 10, "nak_sequence_pdus_2": 10, "recovered_runs": 10, "cut_runs": 50, "cut_limit_faults": 10}
+            "resends_checked": 50, "eof_cancel_mid_file_resends_checked": 10, "scenarios_on_reused_handler_with_retuned_interval": 10, "scenarios_next_to_other_entity_with_own_fault_table": 10, "progress_resets_checked": 4, "nak_sequence_fills_last_pdu_exactly": 10, "nak_sequence_pdus_1": 10, "nak_sequence_pdus_2": 10, "recovered_runs": 10, "cut_runs": 50, "cut_limit_faults": 10}
